@@ -76,7 +76,7 @@ Proof.
 Qed.
 
 (* ---- setters ---- *)
-Ltac unf := unfold cancel, cancel_if in *; unfold upd_li, upd_part in *;
+Ltac unf := unfold cancel, cancel_if, gone in *; unfold upd_li, upd_part in *;
   unfold set_lis, set_parts, set_stg, set_now, set_hist,
   set_live, set_ph, set_last, set_cad, set_api, set_map, set_fin in *; cbn [now stg parts lis hist
   lown lkey lval ldur llive lph llast lcad pfin pmap papi] in *.
